@@ -53,6 +53,10 @@ class Sessions(Stage):
             for _ in range(d.int(1, 3)):
                 lab = d.choice(labs)
                 extra.append(['cmd', d.choice(['list (%s)', 'list .(%s)', 'filter (%s)', 'list * ! (%s)', 'breakpoint (%s)']) % lab])
+        if d.chance(0.3):
+            # wildcards made of characters that also occur in escape sequences, against objects of unknown type (shown as ???)
+            extra.append(['line', '%s%swl_nonexistent%s4243.frob(new id [unknown]%s78, nil)' % (wire.timestamp(t + 5000, dialect), tag, sep, sep)])
+            extra.append(['cmd', d.choice(['list ', 'filter ', 'list * ! ']) + d.choice(['*m*', '*0*', '*1*', '*9*', '(*m*)', '(*1*)', '*m'])])
         if d.chance(0.25):
             extra.append(['cmd', d.choice(['help matcher', 'help wlmatcher', 'h matcher', 'help', 'help list', 'help connection'])])
         # splice the extras at drawn positions
@@ -138,7 +142,8 @@ class PasteBack(Stage):
             picks = [d.int(-1, len(PALETTE) - 1) if d.chance(0.7) else -1 for _ in range(5)]
             cmds.append(dict(text=t, cuts=cuts, picks=picks))
         as_option = d.chance(0.25)
-        return dict(specs=specs, cmds=cmds, color=d.chance(0.3), as_option=as_option)
+        # the commands are handed to the controller directly (as GDB mode does) or typed at the tool's own prompt (file / run mode)
+        return dict(specs=specs, cmds=cmds, color=d.chance(0.3), as_option=as_option, via_prompt=d.chance(0.5))
 
     def execute(self, case):
         from core import matcher
@@ -162,7 +167,12 @@ class PasteBack(Stage):
                 n0, n1 = len(s.out.buffer), len(s.err.buffer)
                 exc = None
                 try:
-                    s.ctl.process_command(text)
+                    if case.get('via_prompt'):
+                        from frontends.tui import TerminalUI
+                        script = [text, 'resume']
+                        TerminalUI(s.ctl, s.ctl, lambda prompt: script.pop(0) if script else 'resume').run_until_stopped()
+                    else:
+                        s.ctl.process_command(text)
                 except Exception as e:      # noqa - reported as a discrepancy below, with the frame
                     exc = '%s: %s' % (type(e).__name__, e)
                 sel = s.ctl.current_connection.name() if s.ctl.current_connection else None
@@ -190,6 +200,7 @@ class PasteBack(Stage):
                         res.bad('coloured-matcher-differs', '%r -> %r, coloured %r -> %r' % (body_plain, outs[0], body_col, outs[1]))
         res.nontrivial = wrapped_any
         if wrapped_any: res.label('some-segment-coloured')
+        if case.get('via_prompt'): res.label('typed-at-the-prompt')
         if any(c['text'] != c['text'].lstrip() for c in case['cmds']): res.label('leading-blank')
         res.sample = dict(commands=[colourise(c['text'], c['cuts'], c['picks']) for c in case['cmds']])
         return res
